@@ -116,8 +116,12 @@ X("x_blend_public_api", "Frame::image on two-layer sprites == Aseprite reference
 X("x_determinism", "same bytes -> same observations; repeated / reordered / 16-thread concurrent calls agree", ["file::*"], mod="x_misc", bound="40 / 400 seeded models + 10 / all small corpus files")
 X("x_utils", "extrude_border clamps; PaletteMapper.lookup / to_indexed_image as documented", ["util::extrude_border", "util::PaletteMapper::new", "util::PaletteMapper::lookup", "util::to_indexed_image"], mod="x_misc",
   bound="all sizes 1..8^2 + 30 / 300 seeded up to 64x64; 200 / 2000 seeded palettes")
+X("x_decoder_contracts", "every chunk decoder satisfies its contract (Ok iff layout/enums/UTF-8 valid; every stored attribute == layout read, file order) on generated payloads",
+  ["layer::parse_chunk", "tags::parse_chunk", "slice::parse_chunk", "palette::parse_chunk", "palette::parse_old_chunk_04", "palette::parse_old_chunk_11", "external_file::ExternalFile::parse_chunk",
+   "tileset::Tileset::parse_chunk", "user_data::parse_userdata_chunk", "color_profile::parse_chunk", "cel::parse_chunk"], mod="x_decoders",
+  bound="25 / 250 seeded models: every chunk payload + truncations + extensions + boundary windows + random edits")
 S("s_send_sync", "AsepriteFile, Frame, Layer, Cel, Tilemap, Tileset, ColorPalette, Tag, Slice, ... are Send + Sync", ["file::AsepriteFile", "all public value types"])
-PROPS["CX"] = {"level": "exploration", "obligations": ["x_roundtrip_structure", "x_header_extremes", "x_routes", "x_frames_vs_spec", "x_cel_order_irrelevant", "x_forest_exhaustive", "x_userdata_exhaustive", "x_neutral_encodings", "x_truncation", "x_readers", "x_refusals", "x_palette_precedence", "x_indexed_needs_palette", "x_tilemap_views", "x_mode_table", "x_soft_light", "x_hsl_kernels", "x_blend_public_api", "x_determinism", "x_utils", "s_send_sync"]}
+PROPS["CX"] = {"level": "exploration", "obligations": ["x_roundtrip_structure", "x_header_extremes", "x_routes", "x_frames_vs_spec", "x_cel_order_irrelevant", "x_forest_exhaustive", "x_userdata_exhaustive", "x_neutral_encodings", "x_truncation", "x_readers", "x_refusals", "x_palette_precedence", "x_indexed_needs_palette", "x_tilemap_views", "x_mode_table", "x_soft_light", "x_hsl_kernels", "x_blend_public_api", "x_determinism", "x_utils", "x_decoder_contracts", "s_send_sync"]}
 
 # ---------------------------------------------------------------- decoders: K-full enums (proved) and K-shape (bounded-sym)
 BS = "bounded-sym"
@@ -213,20 +217,28 @@ READER = ["k_reader_prims_6", "k_reader_prims_3", "k_reader_sequence", "k_reader
 UD_DEC = ["k_user_data_4", "k_user_data_8", "k_user_data_12"]
 CP_DEC = ["k_color_profile_15", "k_color_profile_16", "k_color_profile_20"]
 
+# Kani shapes that need 7 - 60+ minutes each (Vec<struct with String> drop glue, hashbrown): thorough tier only
+HEAVY = ["k_tags_chunk_30", "k_tags_chunk_49", "k_slice_chunk_14", "k_slice_chunk_34", "k_slice_chunk_58", "k_palette_chunk_20", "k_palette_chunk_26", "k_palette_chunk_35",
+         "k_old04_chunk_10", "k_old11_chunk_10", "k_old11_chunk_13", "k_validate_indexed", "k_indexed_as_rgba", "k_ext_files_27", "k_tileset_head_34", "k_tileset_head_44", "k_cels_table"]
+from registry import OBL
+for _h in HEAVY:
+    OBL[_h].tier = "thorough"
+    OBL[_h].timeout = 5400
+
 def prop(id, level, obls, explanation, **kw):
     d = {"level": level, "obligations": obls, "explanation": explanation}
     d.update(kw)
     PROPS[id] = d
 
 prop("C01", "proof", ["k_parse_chunk_type", "k_parse_pixel_format", "k_check_chunk_bytes", "k_pixel_format_accessors"] + READER + LAYER_DEC + TAGS_DEC + SLICE_DEC
-     + ["k_palette_chunk_20", "k_palette_chunk_26", "k_palette_chunk_35"] + EXT_DEC + TS_DEC + ["x_roundtrip_structure", "x_header_extremes"],
+     + ["k_palette_chunk_20", "k_palette_chunk_26", "k_palette_chunk_35"] + EXT_DEC + TS_DEC + ["x_decoder_contracts", "x_roundtrip_structure", "x_header_extremes"],
      "Leaf decoders are under contract (enum decoders proved over their whole domain; chunk decoders field-by-field against the file-format layout on fixed payload sizes with symbolic contents). The composition (header, frame dispatch, accessors) cannot be executed symbolically by Kani nor extracted for Verus and is a bounded stand-in (x_*).")
 prop("C02", "proof", ["v_write_raw_cel", "v_write_tilemap_cel", "v_tile_slice", "v_tilemap_tile", "k_mul_un8", "k_cels_table", "x_mode_table", "x_frames_vs_spec", "x_cel_order_irrelevant", "x_blend_public_api"],
      "The raw-cel rasteriser is proved FUNCTIONALLY correct by Verus for unbounded sizes (placement, clipping, row-major index, opacity product, blend call). mul_un8 == round8 and the cel table's storage-order independence are Kani contracts. frame_image / write_cel / is_visible glue and the dispatch table (Kani ICE, no dyn in Verus) are bounded stand-ins.")
 prop("C03", "proof", BLEND_LEAVES + BLEND_WRAPPERS + ["k_parse_blend_mode", "x_mode_table", "x_soft_light", "x_hsl_kernels", "x_blend_public_api"],
      "14 integer modes: leaves == Aseprite macros over their full domains, normal/merge == reference over all 2^72 inputs, every mode function == RGBA_BLENDER_N structure modulo callees (uninterpreted-function abstraction). soft light and the four HSL modes: integer skeleton proved, f64 kernels bounded-exec (soft light exhaustive over 65536 pairs).")
 prop("C04", "proof", ["v_compute_parents", "v_from_vec", "k_check_chunk_bytes", "k_scale_6bit", "k_parse_chunk_type", "k_parse_pixel_format"] + LAYER_DEC + TAGS_DEC + SLICE_DEC + PAL_DEC + EXT_DEC
-     + TS_DEC + CEL_DEC + UD_DEC + CP_DEC + READER + ["k_tilemap_bits", "k_tile_parse", "k_cels_table", "x_total_load"],
+     + TS_DEC + CEL_DEC + UD_DEC + CP_DEC + READER + ["k_tilemap_bits", "k_tile_parse", "k_cels_table", "x_decoder_contracts", "x_total_load"],
      "Totality contracts: every Kani decoder harness also discharges the automatic no-panic / no-overflow / in-bounds checks for all contents of its payload size; Verus proves compute_parents and that from_vec establishes its precondition. Whole-load totality (glue, zlib, stack depth, allocation) is fault enumeration in an isolated child process.", level_note_extra="fault enumeration for the composition")
 prop("C05", "proof", ["v_write_raw_cel", "v_write_tilemap_cel", "v_tile_slice", "v_tilemap_tile", "v_pixels_per_tile", "k_validate_indexed", "k_indexed_as_rgba", "k_tileset_head_34", "k_tileset_head_44", "x_usable_after_load"],
      "Assume/guarantee: the renderers are proved panic-free under explicit preconditions R-pre (Verus, unbounded); that validation establishes R-pre for everything that loads is checked by fault enumeration: every loadable corrupted file is driven through every accessor.")
@@ -238,15 +250,15 @@ prop("C08", "proof", ["k_tile_parse", "k_tile_bitmask_header", "k_tilemap_bits",
      "Tile word decode, tile lookup and tile slicing are contracts over unbounded sizes; the Tilemap / Tileset views need a loaded sprite and are compared with each other and with the model on seeded sprites.")
 prop("C09", "proof", ["v_compute_parents", "v_from_vec", "x_forest_exhaustive"],
      "compute_parents is proved by Verus on the real text for ALL layer sequences (any length, any depth) whose first level is 0 - the forests of the property are a subset; from_vec establishes that precondition. Layer::parent / is_visible / the compositing gate are exhaustively executed for every forest of up to 6 (quick) / 8 (thorough) layers and every flag assignment.")
-prop("C10", "exploration", UD_DEC + ["x_userdata_exhaustive", "x_roundtrip_structure"],
+prop("C10", "exploration", UD_DEC + ["x_decoder_contracts", "x_userdata_exhaustive", "x_roundtrip_structure"],
      "The attachment state machine lives in ParseInfo (HashMaps, Arc, nested Vecs) and parse_frame; neither verifier can execute it. Exhaustive bounded exploration of all admissible chunk sequences up to length 5 / 6 against the rule written as a pure fold; the user-data chunk decoder itself is a Kani contract.")
-prop("C11", "proof", PAL_DEC + ["k_validate_indexed", "x_palette_precedence", "x_indexed_needs_palette"],
+prop("C11", "proof", PAL_DEC + ["k_validate_indexed", "x_decoder_contracts", "x_palette_precedence", "x_indexed_needs_palette"],
      "6-bit scaling proved for all u8; palette chunk decoders against the layout on fixed sizes; pixel-index validation on a bounded shape; precedence between chunks and the load failure for incomplete palettes are bounded-exec.")
 prop("C13", "exploration", READER + ["k_check_chunk_bytes", "x_truncation"],
      "Reader primitives return an error value whenever fewer bytes remain than the field needs (contract, every position of a fixed-size cursor); that declared counts drive the reads is glue: every cut offset of generated and corpus files is executed.")
 prop("C14", "exploration", ["k_error_mapping", "k_reader_prims_6", "k_reader_sequence", "x_readers"],
      "Error mapping (io::Error -> IoError, source()) is a Kani contract; independence of reader behaviour is bounded-exec with scripted readers (short reads, Interrupted, BufReader, files) and a hard error of 6 kinds injected at byte offsets.")
-prop("C15", "proof", ["k_parse_pixel_format", "k_parse_layer_type", "k_parse_blend_mode", "k_parse_animation_direction", "k_parse_chunk_type", "k_cel_chunk_18", "k_cel_chunk_17", "k_tilemap_bits"] + CP_DEC + ["x_refusals"],
+prop("C15", "proof", ["k_parse_pixel_format", "k_parse_layer_type", "k_parse_blend_mode", "k_parse_animation_direction", "k_parse_chunk_type", "k_cel_chunk_18", "k_cel_chunk_17", "k_tilemap_bits"] + CP_DEC + ["x_decoder_contracts", "x_refusals"],
      "Every refusal that is a branch of a contracted function is proved over the whole code domain (colour depth, layer type, blend mode, animation direction, cel type, chunk type, colour profile type/flags, bits per tile); the pixel-ratio rule and 'tileset without pixels' sit in glue and are bounded-exec at every position.")
 prop("C16", "other", ["s_send_sync", "x_determinism", "v_write_raw_cel", "v_write_tilemap_cel", "v_tile_slice", "v_pixels_per_tile", "v_compute_parents", "k_mul_un8", "k_blend8", "k_merge", "k_normal_r", "k_normal_g", "k_normal_b", "k_pixel_count", "k_pixels_per_tile"],
      "(a) Send + Sync: discharged by rustc's trait solver. (b) no result depends on wrapping arithmetic: the overflow obligations of the Verus units (unbounded) and of the Kani blend leaves. (c) determinism / repeat / permute / 16 threads: sanity stand-in only - interleavings are NOT explored (Kani has no threads; Verus would need its permission types in the real code); the schedule quantifier rests on Rust's Sync + &self guarantee.")
